@@ -223,20 +223,27 @@ def check(sel):
         save_idx(ix)
 
 
-def pcheck(jobs, sel, outfile=None, override=None):
+def pcheck(jobs, sel, outfile=None, override=None, table=None, prefix="vsw"):
     """like check, but in JOBS scratch copies of the committed /verif and /repo under /tmp (the harness
     of each copy depends on its own copy of the repository), so that /repo itself is never touched"""
     import threading
     lock = threading.Lock()
-    ix = load_idx()
     outfile = outfile or CHK
     override = override or {}
-    done = load_chk() if outfile == CHK else {}
-    todo = [k for k in sorted(ix) if ix[k]["screen"] == "survives" and ((sel and k in sel) or (not sel and k not in done))]
+    if table is not None:
+        # table: id -> {"diff": path, "props": [...]}  (used for the stored seeded changes)
+        ix = table
+        todo = [k for k in sorted(ix) if not sel or k in sel]
+    else:
+        ix = load_idx()
+        for k in ix:
+            ix[k]["diff"] = os.path.join(SW, k + ".diff")
+        done = load_chk() if outfile == CHK else {}
+        todo = [k for k in sorted(ix) if ix[k]["screen"] == "survives" and ((sel and k in sel) or (not sel and k not in done))]
     print("to check:", len(todo), flush=True)
 
     def worker(w):
-        base = "/tmp/vsw_%d" % w
+        base = "/tmp/%s_%d" % (prefix, w)
         shutil.rmtree(base, ignore_errors=True)
         sh("mkdir -p %s/verif %s/repo && git -C /verif archive HEAD | tar -x -C %s/verif && git -C /repo archive HEAD | tar -x -C %s/repo" % (base, base, base, base))
         sh("sed -i 's#path = \"/repo\"#path = \"%s/repo\"#' %s/verif/harness/Cargo.toml" % (base, base))
@@ -244,7 +251,7 @@ def pcheck(jobs, sel, outfile=None, override=None):
             if j % jobs != w:
                 continue
             r = ix[k]
-            rc, o = sh("patch -p1 < %s" % os.path.join(SW, k + ".diff"), cwd=base + "/repo")
+            rc, o = sh("patch -p1 < %s" % r["diff"], cwd=base + "/repo")
             res = {}
             if rc != 0:
                 res = {"error": o[:200]}
@@ -258,7 +265,7 @@ def pcheck(jobs, sel, outfile=None, override=None):
                     print(w, k, c, "exit", rc, flush=True)
                     if rc == 1:
                         break
-                sh("patch -R -p1 < %s" % os.path.join(SW, k + ".diff"), cwd=base + "/repo")
+                sh("patch -R -p1 < %s" % r["diff"], cwd=base + "/repo")
             with lock:
                 ck = json.load(open(outfile)) if os.path.exists(outfile) else {}
                 ck[k] = {"checks": res, "caught": any(isinstance(v, dict) and v.get("exit") == 1 for v in res.values())}
@@ -309,7 +316,16 @@ if __name__ == "__main__":
     elif cmd == "recheck":
         # recheck JOBS id:prop[,prop] ...   (results in sweep/rechecks.json)
         ov = {a.split(":")[0]: a.split(":")[1].split(",") for a in sys.argv[3:]}
-        pcheck(int(sys.argv[2]), list(ov), os.path.join(SW, "rechecks.json"), ov)
+        pcheck(int(sys.argv[2]), list(ov), os.path.join(SW, "rechecks.json"), ov, prefix="vsr")
+    elif cmd == "seeds":
+        # seeds JOBS [seed-id ...]: regression of the stored seeded changes in scratch copies (results in selftest/seed_regression.json)
+        import glob
+        tb = {}
+        for meta in sorted(glob.glob(os.path.join(ROOT, "seeded/*/meta.json"))):
+            m = json.load(open(meta))
+            cs = sorted(m.get("detected_by") or [m["property"]], key=lambda c: c != m["property"])[:1]
+            tb[m["seed"]] = {"diff": os.path.join(os.path.dirname(meta), "patch.diff"), "props": cs}
+        pcheck(int(sys.argv[2]), sys.argv[3:], os.path.join(ROOT, "selftest", "seed_regression.json"), None, tb, prefix="vss")
     elif cmd == "report":
         report()
     elif cmd == "count":
